@@ -36,7 +36,7 @@ var specs = map[string]Spec{
 		RealComp: realOrder, StubComp: append([]string{"git repository -> real go-git repository on a private tmpfs directory, built by the harness with a fixed commit time"}, stubOrder...),
 		Assume: []string{"file renames are not generated (go-git's rename detection changes what 'the same file' means); a script contains at most one of add-file / delete-file",
 			"a type change always changes the bare type name (the linter compares names without include qualifier)", "edits that would leave HEAD uncompilable are rolled back: the tool then exits with a compile error, which is outside the property",
-			"a reported line matches an expected diagnostic by file and by the quoted names at the start of its message, not by its wording"},
+			"a reported line stands for an expected diagnostic if it is attributed to the expected file and mentions every expected name as a word (maximum bipartite matching); wording and quoting of messages are not compared"},
 	},
 	"C10": {
 		Prop: "C10", Engine: "order-world", Level: "exploration", Binary: "root",
